@@ -51,13 +51,15 @@ class Plan:
         Plan.summaries = c03_wake.SUMMARY_TEXT + c03_exec.SUMMARY_TEXT
         self.tier = tier
 
-    def _wake_check(self, wk, kind, wakers, iters, init, mode, full):
+    def _wake_check(self, wk, kind, wakers, iters, init, mode, full, pb=None):
         from explore import Stats, Failure
-        name = "wake.%s.%s.init%d.w%d.i%d%s" % (kind, mode, init, wakers, iters, "" if full else ".reduced")
+        name = "wake.%s.%s.init%d.w%d.i%d%s%s" % (kind, mode, init, wakers, iters, "" if full else ".reduced",
+                                                  "" if pb is None else ".preempt%d" % pb)
 
         def body(sd):
             t0 = time.time()
-            n, steps, q, lost = self.mw.explore_schedules(wk, wakers, iters, init, mode, seed=sd, full_havoc=full)
+            n, steps, q, lost = self.mw.explore_schedules(wk, wakers, iters, init, mode, seed=sd, full_havoc=full,
+                                                          preempt_bound=pb)
             st = Stats()
             st.paths, st.queries, st.obligations, st.discharged = n, steps, n, n - (1 if lost else 0)
             st.solver_s = time.time() - t0
@@ -93,7 +95,9 @@ class Plan:
                 cs.append(self._wake_check(wk, kind, 1, 3, init, "poll", False))
                 cs.append(self._wake_check(wk, kind, 1, 2, init, "flush", tier == "thorough" or kind == "poll"))
             if tier == "thorough":
-                cs.append(self._wake_check(wk, kind, 2, 2, 2, "poll", False))
+                # two wakers: exhaustive for io_uring (2x10^4 schedules); the polling driver's poll has more scheduling
+                # points (> 4x10^5 schedules): context-bounded there
+                cs.append(self._wake_check(wk, kind, 2, 2, 2, "poll", False, None if kind == "iour" else 3))
         # executor layer: one waker exhaustively; two wakers (same task / two tasks, full queue) under a context bound
         cs.append(self._exec_check(1, 1, 2, True))
         cs.append(self._exec_check(2, 1, 2, True, 2))
